@@ -26,6 +26,7 @@ import (
 type ev map[string]any
 
 type recorder struct {
+	t0   time.Time
 	mu   sync.Mutex
 	g    int
 	evs  []ev
@@ -40,6 +41,10 @@ func (r *recorder) log(c int, proc, name string, kv ...any) {
 	r.mu.Lock()
 	r.g++
 	e["g"] = r.g
+	if r.t0.IsZero() {
+		r.t0 = time.Now()
+	}
+	e["tms"] = int(time.Since(r.t0).Milliseconds()) // monotonic, taken under the same mutex as g; only compared with wide margins
 	r.evs = append(r.evs, e)
 	if r.file != nil { // streamed, so that a process-wide panic leaves the prefix on disk
 		b, _ := json.Marshal(e)
